@@ -371,10 +371,14 @@ def run_case(case):
         cnt["raw_draws_failed"] += failed
         if any(not math.isfinite(x) for x in xs):
             bad("c11.draw-not-finite", "a raw draw is not finite")
-        rej = stats_reject(xs)
+        # draws that raise (listed finding: scipy's discrete quantile search) fail for particular quantiles, so the surviving sample is
+        # conditioned on them and says nothing about the law: the statistical clause is then undecided (the exact quantile clauses above decide)
+        rej = stats_reject(xs) if not failed else []
+        if failed:
+            cnt["statistics_undecided_draw_failures"] += 1
         if rej:
-            xs2, _ = sample(2 * case["nd"], case["seed"] * 2 + 12)
-            rej2 = stats_reject(xs2)
+            xs2, failed2 = sample(2 * case["nd"], case["seed"] * 2 + 12)
+            rej2 = stats_reject(xs2) if not failed2 else []
             cnt["statistical_reconfirmations"] += 1
             if rej2:
                 bad("c11.draws-differ-from-documented-law" + region(), "; ".join(rej2))
